@@ -19,6 +19,8 @@ TRUSTED_BASE = [
     "hand-written Coq model of registry.go/package.go/method_scope.go/var.go/moq.go/template_data.go and of "
     "types.TypeString, text/template (subset), strings.Replacer, ASCII case mapping: tied to /repo by the "
     "byte-exact -fmt noop correspondence on every run",
+    "L1 driver (Go, harness/cmd/vh/l1.go): builds synthetic go/types objects, drives the real internal/registry "
+    "package through its exported API and writes the same history as a Coq term for L1Check.v",
     "go/types as the meaning of 'compiles'; go/packages loading, go list, the Go toolchain: not modelled",
 ]
 
